@@ -164,6 +164,20 @@ extern "C" void verif_harness() {
     if (x == -INF && y == -INF) SYM_ASSERT(ls == -INF, "pairwise log-sum of two log-zeros is not log-zero");
     if (x < INF && y < INF) SYM_ASSERT(ls < INF, "pairwise log-sum is infinite although no term is");
     break; }
+  case 10: { // weighted mean, covariance, variance, standard deviation, correlation: every combination of the unbiased / normalise flags
+    int n = len("n", 2); V a = anyV("a", n), b = anyV("b", n), w(n); double S = 0; for (int i = 0; i < n; i++) { w[i] = sympos("w" + to_string(i)); S += w[i]; }
+    int unb = __sym_choose("unbiased", 0, 1), nrm = __sym_choose("normalize", 0, 1);
+    V q(n); for (int i = 0; i < n; i++) q[i] = nrm ? w[i] / S : w[i];        // the weights actually used
+    double ma = 0, mb = 0, s2 = 0; for (int i = 0; i < n; i++) { ma += q[i] * a[i]; mb += q[i] * b[i]; s2 += q[i] * q[i]; }
+    double sab = 0, saa = 0, sbb = 0; for (int i = 0; i < n; i++) { sab += q[i] * (a[i] - ma) * (b[i] - mb); saa += q[i] * (a[i] - ma) * (a[i] - ma); sbb += q[i] * (b[i] - mb) * (b[i] - mb); }
+    if (unb) SYM_ASSUME(!(s2 == 1));
+    double corr = unb ? 1 - s2 : 1.0;
+    SYM_ASSERT_EQ((VectorTools::mean<double, double>(a, w, nrm != 0)), ma, "weighted mean differs from sum w.x");
+    SYM_ASSERT_EQ((VectorTools::cov<double, double>(a, b, w, unb != 0, nrm != 0)) * corr, sab, "weighted covariance differs from its definition");
+    SYM_ASSERT_EQ((VectorTools::var<double, double>(a, w, unb != 0, nrm != 0)) * corr, saa, "weighted variance differs from its definition");
+    if (nrm) { SYM_ASSUME(saa > 0 && sbb > 0); double sd = VectorTools::sd<double, double>(a, w, unb != 0, true); SYM_ASSERT(sd >= 0, "negative weighted standard deviation"); SYM_ASSERT_EQ(sd * sd * corr, saa, "weighted sd^2 differs from the weighted variance");
+      double r = VectorTools::cor<double, double>(a, b, w, true); SYM_ASSERT_EQ(r * r * saa * sbb, sab * sab, "weighted correlation differs from cov/(sd.sd)"); SYM_ASSERT((r >= 0) == (sab >= 0), "weighted correlation has the wrong sign"); }
+    break; }
   case 9: {  // entropy and mutual information
     double base = symd("base"); SYM_ASSUME(base > 1.001 && base < 100);
     { // entropy of a frequency vector: -sum_{x>0} x log x / log base (zero and negative entries are skipped)
